@@ -1,11 +1,15 @@
 (** C07  No input can crash the interpreter.
     Property theorems only. Every Rust site that can panic is an explicit [Panic site] outcome of
     the model; these theorems show the sites that an earlier check makes unreachable, and the
-    totality of the lexer and of the reader. What is not proved here (transformer/evaluator totality as
-    a whole: no Panic for every well-formed AST) rests on the correspondence of the check. *)
+    totality of the lexer and of the reader, and that the evaluator reaches none of the Rust panic sites
+    for any expression the transformer can build, in any state reached from start-up ([PUnmodelled] is the
+    model's own limit, not a Rust site), and the same for the whole interpreter: transformer with macro
+    expansion, loader, library instantiation, evaluation of any program text after start-up. *)
 From Coq Require Import List.
-From RV Require Import Model.Common Model.Datum Model.Lexer Model.Reader Model.Value Model.Builtins Model.Eval
-  Proofs.LexProofs Proofs.ReaderProofs Proofs.NoPanicProofs Proofs.EvalProofs.
+From RV Require Import Model.Common Model.Datum Model.Lexer Model.Reader Model.Ast Model.Transform Model.Value Model.Builtins
+  Model.Eval Proofs.LexProofs Proofs.ReaderProofs Proofs.NoPanicProofs Proofs.EvalProofs Proofs.LibBoot Proofs.NoPanicEval
+  Proofs.TransformNB Proofs.NoPanicBoot Model.Macro Model.Interp Proofs.InstBoot Proofs.MacroNoPanic Proofs.TransformNoPanic
+  Proofs.NoPanicLoader Proofs.NoPanicStart.
 Import ListNotations.
 
 (** the lexer: every text yields a token, the end of input or a reported error *)
@@ -36,3 +40,69 @@ Theorem C07_reader_total : forall s, fine (read_next s).
 Proof. exact read_next_total. Qed.
 Theorem C07_read_text_total : forall text, fine (read_text text).
 Proof. exact read_text_total. Qed.
+
+(** the evaluator as a whole: if every procedure body in the expression and in the closures of the store
+    is non-empty, no fuel and no input make it reach a panic site of the Rust code (arg_iter.next().unwrap(),
+    unreachable!() on an empty body, iter.next().unwrap() of the natives, ...) *)
+Theorem C07_evaluator_reaches_no_panic_site : forall fuel e env st x st',
+  eval_expr fuel e env st = (Panic x, st') -> snb st -> nbe e -> x = PUnmodelled.
+Proof. exact evaluator_reaches_no_panic_site. Qed.
+
+(** ... the invariant is kept by evaluation ... *)
+Theorem C07_bodies_stay_non_empty : forall fuel e env st r st',
+  eval_expr fuel e env st = (r, st') -> r <> OutOfFuel -> snb st -> nbe e -> snb st' /\ forall v, r = Ok v -> vnb v.
+Proof. exact bodies_stay_non_empty. Qed.
+
+(** ... established by the transformer for everything it accepts (expressions, definitions, library
+    bodies, macro expansions) ... *)
+Theorem C07_transformer_rejects_empty_bodies : forall fuel d e s e',
+  transform_stmt fuel d e = (Ok s, e') -> nbs s.
+Proof. exact transform_bodies_non_empty. Qed.
+
+(** ... and true of the state after start-up *)
+Theorem C07_start_up_state_meets_the_invariant : snb boot_state.
+Proof. exact boot_state_bodies_non_empty. Qed.
+
+Theorem C07_transformed_form_reaches_no_panic_site : forall tf d senv e senv' fuel env st x st',
+  transform_stmt tf d senv = (Ok (SExpr e), senv') -> snb st ->
+  eval_expr fuel e env st = (Panic x, st') -> x = PUnmodelled.
+Proof. exact transformed_form_reaches_no_panic_site. Qed.
+
+(** the macro expander: `substitutions.get_mut(&var).unwrap()` never misses its key, for any pattern,
+    any form, any table and any fuel ... *)
+Theorem C07_matcher_never_misses_a_key : forall fuel lits p d s x, match_datum fuel lits p d s <> Panic x.
+Proof. exact matcher_never_misses_a_key. Qed.
+
+(** ... so the transformer as a whole (datum -> AST with macro expansion) has no panic in its reach *)
+Theorem C07_transformer_never_panics : forall fuel d e x e', transform_stmt fuel d e <> (Panic x, e').
+Proof. exact transformer_never_panics. Qed.
+
+(** the interpreter level: imports, library instantiation and evaluation keep the invariant [cnb] (every
+    procedure body non-empty in the store, in the exports of the instantiated libraries, in the native tables
+    and in the parsed library definitions) and end in no panic site *)
+Theorem C07_loader_reaches_no_panic_site : forall f, loader_nb f.
+Proof. exact loader_nb_all. Qed.
+
+(** Interpreter::eval on ANY text in any context meeting the invariant: neither the result nor the outcome
+    of any form is a panic site of the Rust code *)
+Theorem C07_eval_text_reaches_no_panic_site : forall fs cwd efuel text c r c' trace,
+  eval_text fs cwd efuel text c = ((r, c'), trace) -> cnb c ->
+  (forall x, r = Panic x -> x = PUnmodelled) /\ (forall x, In (Panic x) trace -> x = PUnmodelled).
+Proof. exact eval_text_reaches_no_panic_site. Qed.
+
+Theorem C07_eval_file_reaches_no_panic_site : forall fs cwd efuel dir file c r c' trace,
+  eval_file fs cwd efuel dir file c = ((r, c'), trace) -> cnb c ->
+  (forall x, r = Panic x -> x = PUnmodelled) /\ (forall x, In (Panic x) trace -> x = PUnmodelled).
+Proof. exact eval_file_reaches_no_panic_site. Qed.
+
+(** start-up establishes the invariant, for any text of the bundled libraries that it accepts *)
+Theorem C07_new_instance_meets_the_invariant : forall bt wt bn wn st syn i st' syn',
+  new_instance bt wt bn wn st syn = (Ok i, st', syn') -> snb st -> cnb {| c_inst := i; c_st := st'; c_syn := syn' |}.
+Proof. exact new_instance_nb. Qed.
+
+(** No input can crash the interpreter: any text, with any file system behind its imports and any fuel,
+    evaluated by an interpreter fresh from start-up (the state computed from the files in /repo) *)
+Theorem C07_no_program_text_panics_after_start_up : forall fs cwd efuel text syn r c' trace,
+  eval_text fs cwd efuel text {| c_inst := boot_inst; c_st := boot_state; c_syn := syn |} = ((r, c'), trace) ->
+  (forall x, r = Panic x -> x = PUnmodelled) /\ (forall x, In (Panic x) trace -> x = PUnmodelled).
+Proof. exact no_program_text_panics_after_start_up. Qed.
